@@ -1327,6 +1327,17 @@ def direct_cases(chk, tier, rng):
     return dcases, dmeta
 
 
+def _has_real_max(v, tol):
+    """some entry of (numerically) largest magnitude is real non-negative.  With several entries of equal magnitude only the one the
+    code picked (the first maximiser before the flip) is made real; after rounding any of them may be the floating-point argmax."""
+    v = np.asarray(v)
+    if v.size == 0:
+        return True
+    a = np.abs(v)
+    top = a >= a.max() - tol * max(1.0, float(a.max()))
+    return bool(np.any(top & (np.abs(v.imag) <= tol * max(1.0, float(a.max()))) & (v.real >= -tol)))
+
+
 def complex_cases(chk, tier, rng, svdmod):
     """complex input (svd_flip as of ca31a67, symeig_svd as of d995974).  Predicates only (tests): the executable model's scalars are
     real (the complex-aware model Model/SvdConj.v equals it for real scalars, C05_flip_conj_real); the statements tested are
@@ -1355,8 +1366,8 @@ def complex_cases(chk, tier, rng, svdmod):
         elif not np.allclose(np.abs(U2), np.abs(U) * (np.abs(U2) > 0), atol=1e-12) or not np.allclose(np.abs(V2), np.abs(V) * (np.abs(V2) > 0), atol=1e-12):
             msg = "svd_flip changes magnitudes (complex input)"
         else:
-            dec = [U2[np.argmax(np.abs(U[:, j])), j] for j in range(c)] if ub else [V2[i, np.argmax(np.abs(V[i, :]))] for i in range(r)]
-            if any(abs(z.imag) > 1e-12 or z.real < -1e-12 for z in dec):
+            vecs = [U2[:, j] for j in range(c)] if ub else [V2[i, :] for i in range(r)]
+            if not all(_has_real_max(v, 1e-12) for v in vecs):
                 msg = "a deciding entry is not real non-negative after svd_flip (complex input)"
             q = min(c, r)
             nz = all(np.any(U[:, j] != 0) for j in range(q)) if ub else all(np.any(V[i, :] != 0) for i in range(q))
@@ -1400,8 +1411,8 @@ def complex_cases(chk, tier, rng, svdmod):
         elif abs(float(np.sum(np.abs(M - (U * S) @ V) ** 2)) - float(np.sum(sig[n:] ** 2))) > tol * float(np.sum(sig ** 2)):
             msg = "error identity fails"
         else:
-            dec = [U[np.argmax(np.abs(U[:, j])), j] for j in range(n)] if ub else [V[i, np.argmax(np.abs(V[i, :]))] for i in range(n)]
-            if any(abs(z.imag) > 1e-9 or z.real < 0 for z in dec):
+            vecs = [U[:, j] for j in range(n)] if ub else [V[i, :] for i in range(n)]
+            if not all(_has_real_max(v, 1e-9) for v in vecs):
                 msg = "a deciding entry is not real positive"
         if msg:
             chk.finding(EP, inp, msg + " (complex input)", "C05_complex")
